@@ -2,6 +2,7 @@
 import random
 
 from vt.world import World
+from vt import engine
 from vt import monitors as M
 from vt.bus import ScriptNode
 from ref import codec as C
@@ -16,10 +17,11 @@ RULE = ('cases = seeded random histories of up to 12 add_timer / remove_timer / 
         'broadcast frame is injected after every (un)subscribe; oracle = shadow timer model built from the operation log (k-th call of a '
         'registration in [t+k*delta, t+k*delta+0.5ms] (+-100 ppm for float quantisation of the deadline), nothing after remove/unsubscribe returned, subscriber called once per live registration); '
         'non-trivial = >=2 timer calls checked; distinct = multiset of operation kinds + who issued them')
-ASSUMPTIONS = ['ECU otherwise idle: callbacks take no virtual time; scheduling latency is the engine wake-up jitter (<=150us), slack 0.5 ms',
+ASSUMPTIONS = ['scheduling latency is the engine wake-up jitter (<=150us), slack 0.5 ms; time the job thread spends inside a (deliberately slow) callback is known to the harness and excuses exactly that much lateness',
                'unsubscribe is not issued from inside a message callback (the DM14 code relies on the resulting skip; the property does not cover it)']
 MIN_OBS = {'timer_calls_checked': {'quick': 3000, 'thorough': 100000}, 'removals': {'quick': 200, 'thorough': 5000},
-           'ops_from_callback': {'quick': 100, 'thorough': 2000}, 'subscriber_calls_checked': {'quick': 300, 'thorough': 5000}}
+           'ops_from_callback': {'quick': 100, 'thorough': 2000}, 'subscriber_calls_checked': {'quick': 300, 'thorough': 5000},
+           'busy_intervals': {'quick': 100, 'thorough': 3000}}
 
 GRID = [0.001, 0.002, 0.005, 0.010, 0.020, 0.050, 0.100, 0.250, 0.500, 1.000, 3.000]
 
@@ -36,7 +38,12 @@ def gen_history(rng):
     cbs = []
     for i in range(ncb):
         style = rng.choice(['oneshot', 'oneshot', 'periodic', 'periodic', 'nshot'])
-        cbs.append(dict(id=i, n_true=0 if style == 'oneshot' else (10 ** 9 if style == 'periodic' else rng.randint(1, 4)), inner={}))
+        # some callbacks take (virtual) time: the job thread is busy meanwhile, other timers become overdue, periodic ones overrun
+        block = {}
+        if rng.random() < 0.25:
+            for at_call in rng.sample([1, 2, 3, 4], rng.randint(1, 2)):
+                block[at_call] = rng.choice([0.0015, 0.004, 0.03, 0.12, 0.26, 0.7])
+        cbs.append(dict(id=i, n_true=0 if style == 'oneshot' else (10 ** 9 if style == 'periodic' else rng.randint(1, 4)), inner={}, block=block))
     nops = rng.randint(1, 12)
     ops = []
     t = 0.02
@@ -70,12 +77,29 @@ def gen_history(rng):
             cbs[host]['inner'].setdefault(at_call, []).append(op)
             op['inside'] = host
         else:
-            t += rng.choice([0.0, 0.0003, 0.0137, 0.1011, 0.3503, 1.2009, 6.0007])
-            t += 0.00011 * (k + 1)
+            t += rng.choice([0.0, 0.0, 0.0003, 0.0137, 0.1011, 0.3503, 1.2009, 6.0007])
+            if rng.random() < 0.6:
+                t += 0.00011 * (k + 1)       # otherwise at exactly the same instant as the previous operation (timers due in one pass)
             op['t'] = t
             ops.append(op)
         k += 1
+    if ncb >= 2 and rng.random() < 0.25:
+        # "the response handler cancels the time-out handler": two timers with the same period registered at one instant (both due in the
+        # same pass of the job thread), the first one removes the second from inside its callback
+        x, y = rng.sample(range(ncb), 2)
+        d = rng.choice(GRID[2:9])
+        t += rng.choice([0.0, 0.05, 0.4])
+        ops.append(dict(kind='add', via='ecu', cb=x, delta=d, t=t))
+        ops.append(dict(kind='add', via=rng.choice(['ecu', 'ca']), cb=y, delta=d, t=t))
+        for at_call in (1, 2, 3):
+            cbs[x]['inner'].setdefault(at_call, []).append(dict(kind='remove', via='ecu', cb=y, inside=x))
     return cbs, ops
+
+
+def ncalls_hint(spec, ops, x):
+    # the call number at which the pattern's first timer fires is not known statically (the callback may have other registrations);
+    # attach the removal to its next few calls
+    return 1
 
 
 def run_case(case):
@@ -91,6 +115,7 @@ def run_case(case):
 
     oplog = []        # (t, kind, cb, delta, reg id, issued_by)
     calls = []        # timer calls: (t, cb, reg id)
+    busy = []         # [start, end] of callbacks that took time (job thread occupied)
     subcalls = []     # (t, cb, marker)
     ncalls = {}
     next_reg = [0]
@@ -142,6 +167,11 @@ def run_case(case):
             calls.append((sim.now, i, cookie))
             for op in spec['inner'].get(ncalls[i], []):
                 do(op, 'cb%d' % i)
+            d = spec['block'].get(ncalls[i])
+            if d:
+                t_b = sim.now
+                engine._vsleep(d)
+                busy.append((t_b, sim.now))
             return ncalls[i] <= spec['n_true']
         return fn
 
@@ -164,7 +194,7 @@ def run_case(case):
     W.run(end)
 
     # ------------------------------------------------------------------ shadow model
-    obs = dict(timer_calls_checked=0, removals=0, ops_from_callback=0, subscriber_calls_checked=0, registrations=0, late_max_us=0)
+    obs = dict(busy_intervals=0, timer_calls_checked=0, removals=0, ops_from_callback=0, subscriber_calls_checked=0, registrations=0, late_max_us=0)
     M.m_live(viol, W, layer)
     dead = bool(W.liveness_problems())
     oplog.sort(key=lambda e: e[0])
@@ -192,38 +222,76 @@ def run_case(case):
     for (tc, cb, rid) in sorted(calls):
         seq[cb] = seq.get(cb, 0) + 1
         ret_true[(rid, tc)] = seq[cb] <= cbs[cb]['n_true']
+    def busy_overlap(a, b):
+        tot = 0.0
+        for (s0, e0) in busy:
+            lo, hi = max(a, s0), min(b, e0)
+            if hi > lo:
+                tot += hi - lo
+        return tot
+
+    obs['busy_intervals'] = len(busy)
     for rid, r in regs.items():
-        k = 0
-        alive = True
+        # grid model: deadlines lie on g_j = t_reg + j*delta; a call serves one grid point; points that were already overdue when the previous
+        # call was served are skipped (the library's overrun rule); lateness beyond the slack must be covered by time the job thread was busy
         cl = sorted(r['calls'])
         who = 'app' if r['by'] == 'app' else 'callback'
+        D_ = r['delta']
+        T0 = r['t']
+        alive = True
+        j_prev = 0
+        floor_prev = 0
+        c_prev = None
+        n = 0
         for tc in cl:
-            k += 1
-            due = r['t'] + k * r['delta']
+            n += 1
             obs['timer_calls_checked'] += 1
+            tol = 20e-6 + REL * (tc - T0)
             if r['removed'] is not None and tc > r['removed'] + 1e-7:
                 viol.add('called_after_remove', 'registration %d (cb %d, delta %.3f) called at %.6f after remove_timer returned at %.6f'
-                         % (rid, r['cb'], r['delta'], tc, r['removed']), layer=layer, issued_by=who)
+                         % (rid, r['cb'], D_, tc, r['removed']), layer=layer, issued_by=who)
                 break
             if not alive:
                 viol.add('called_after_false', 'registration %d (cb %d) called again at %.6f after it returned a non-True value' % (rid, r['cb'], tc), layer=layer)
                 break
-            tol = 20e-6 + REL * k * r['delta']
-            if tc < due - tol:
-                viol.add('timer_early', 'registration %d (cb %d, delta %.3f, registered %.6f) call #%d at %.6f is %.1f us before it was due'
-                         % (rid, r['cb'], r['delta'], r['t'], k, tc, (due - tc) * 1e6), layer=layer)
-            elif tc > due + SLACK + tol and not dead:
-                viol.add('timer_late', 'registration %d (cb %d, delta %.3f, registered %.6f by %s) call #%d at %.6f is %.3f ms after it was due (idle ECU)'
-                         % (rid, r['cb'], r['delta'], r['t'], r['by'], k, tc, (tc - due) * 1e3), layer=layer, periodic=k > 1)
-            else:
-                obs['late_max_us'] = max(obs['late_max_us'], int((tc - due) * 1e6))
+            fl = int((tc + tol - T0) / D_)                        # grid points due by tc
+            hi = fl if n == 1 else min(fl, floor_prev + 1)
+            lo = 1 if n == 1 else j_prev + 1
+            if n == 1:
+                hi = min(hi, 1) if fl >= 1 else hi                # the first call serves the first grid point
+            chosen = None
+            for j in range(lo, hi + 1):
+                g = T0 + j * D_
+                late = tc - g - busy_overlap(g, tc)
+                if late <= SLACK + tol:
+                    chosen = j
+                    obs['late_max_us'] = max(obs['late_max_us'], int(max(late, 0) * 1e6))
+                    break
+            if chosen is None:
+                if hi < lo:
+                    g = T0 + lo * D_
+                    viol.add('timer_early', 'registration %d (cb %d, delta %.3f, registered %.6f) call #%d at %.6f: no grid point was due (next one %.6f, %.1f us ahead; previous call %s)'
+                             % (rid, r['cb'], D_, T0, n, tc, g, (g - tc) * 1e6, '%.6f' % c_prev if c_prev else 'none'), layer=layer, periodic=n > 1)
+                    chosen = lo
+                elif not dead:
+                    g = T0 + hi * D_
+                    viol.add('timer_late', 'registration %d (cb %d, delta %.3f, registered %.6f by %s) call #%d at %.6f is %.3f ms after grid point %.6f (job thread busy %.3f ms of that)'
+                             % (rid, r['cb'], D_, T0, r['by'], n, tc, (tc - g) * 1e3, g, busy_overlap(g, tc) * 1e3), layer=layer, periodic=n > 1)
+                    chosen = hi
+                else:
+                    chosen = max(lo, hi)
+            j_prev = chosen
+            floor_prev = max(fl, chosen)
+            c_prev = tc
             alive = ret_true.get((rid, tc), False)
         # a call that was due and never came
         if alive and not dead:
-            due = r['t'] + (k + 1) * r['delta']
-            if due + SLACK < end - 0.01 and (r['removed'] is None or r['removed'] > due + SLACK):
-                viol.add('timer_missing', 'registration %d (cb %d, delta %.3f, registered %.6f by %s) call #%d was due at %.6f and never came (run ended %.3f)'
-                         % (rid, r['cb'], r['delta'], r['t'], r['by'], k + 1, due, end), layer=layer, periodic=k > 0)
+            j_next = (floor_prev + 1) if n else 1
+            due = T0 + j_next * D_
+            lim = due + SLACK + REL * (due - T0) + busy_overlap(due, end) + 20e-6
+            if lim < end - 0.01 and (r['removed'] is None or r['removed'] > lim):
+                viol.add('timer_missing', 'registration %d (cb %d, delta %.3f, registered %.6f by %s) was due at %.6f at the latest and was not called (run ended %.3f, %d calls so far)'
+                         % (rid, r['cb'], D_, T0, r['by'], due, end, n), layer=layer, periodic=n > 0)
     # subscribers: per injected frame, calls of cb == live registrations of cb when the frame was delivered
     live = {}
     windows = []      # (t_inject, mk, snapshot of live)
